@@ -26,6 +26,16 @@ def _c08():
 
 
 C08 = _c08()
+
+
+def _c13():
+    sp = importlib.util.spec_from_file_location("spec_C13_for_c03", os.path.join(HERE, "..", "C13", "spec.py"))
+    m = importlib.util.module_from_spec(sp)
+    sp.loader.exec_module(m)
+    return m
+
+
+C13 = _c13()
 # edit batches with unchanged text before AND after the edit: the size resolve_edits reports (what commit compares with the limit)
 SIZE_BATCHES = ("start_longer", "mid_delete")
 
@@ -42,7 +52,10 @@ def generate(ctx):
             keep.append(blk.replace("c04_lookup_", "c03_unchecked_reads_"))
     edit_tpl = open(os.path.join(HERE, "..", "C08", "input_text__buffer__edit.rs")).read().replace("/*@MOD@*/verif_c08", "verif_c03")
     gens = [C08.gen_shape(n, s, e)[0].replace("c08_batch_", "c03_batch_size_") for (n, s, e, t) in C08.SHAPES if n in SIZE_BATCHES]
-    return {"input_text__buffer__edit": edit_tpl.replace("/*@GENERATED@*/", "\n\n".join(gens)),
+    lat_tpl = open(os.path.join(HERE, "..", "C13", "analysis__stateful_tokenizer.rs")).read()
+    lat_tpl = lat_tpl.replace("/*@LATMOD@*/verif_c13_lat", "verif_c03_lat").replace("/*@LATNAME@*/c13_lattice_providers", "c03_lattice_total")
+    return {"analysis__stateful_tokenizer": lat_tpl,
+            "input_text__buffer__edit": edit_tpl.replace("/*@GENERATED@*/", "\n\n".join(gens)),
             "dic__lexicon__trie": tpl.replace("/*@GENERATED@*/", "\n".join(keep)).replace("/*@LEN@*/5", str(p["LEN"]))}
 
 
@@ -70,6 +83,8 @@ def harnesses(ctx):
         Harness("c03_created_shift", "analysis__created", ["CreatedWords::single", "CreatedWords::has_word", "CreatedWords::add_word"], "every i64 length >= 1",
                 kernel="C03-c no shift overflow in the created-length set", timeout_s=600, mem_gb=8),
     ]
+    hs.append(C13.lat_harness("c03_lattice_total", "verif_c03_lat",
+                              "C03-b every reachable position gets a node and the text a path: the fallback provider is asked again wherever nothing was created (symbolic character classes)"))
     for (n, s, e, t) in C08.SHAPES:
         if n in SIZE_BATCHES:
             hs.append(Harness("c03_batch_size_" + n, "input_text__buffer__edit", ["resolve_edits", "add_replace"],
@@ -98,5 +113,5 @@ MANIFEST = dict(
           "'disconnected' marker after up to 32,767 tokens with arbitrary i16 costs (beyond that: listed finding F-C03-1); (b) the unchecked connection-matrix, trie-unit and word-id-table reads "
           "stay inside their arrays for validated ids and for every short text; (c) u16 casts of boundaries/indices are lossless for every admitted length, the created-length set never shifts out "
           "of range, inputs beyond 49,149 bytes yield an error value before any work, a committed edit batch whose reported size exceeds 65,535 bytes is an error that leaves the buffer unchanged, and the size resolve_edits reports is the length of the whole rewritten text (two batch shapes, any previous offset map)."),
-    note="Overflow and pointer checks are the assertions (Kani verifies the overflow-checks=on, debug-assertions=on build). Trusted: Kani/CBMC/cadical.",
+    note="c03_lattice_total (LatticeBuilder::build_lattice on a 2-character text with symbolic character classes always yields a path when the fallback provider is configured last) is thorough-only and optional: measured out of memory at 24 GB. Overflow and pointer checks are the assertions (Kani verifies the overflow-checks=on, debug-assertions=on build). Trusted: Kani/CBMC/cadical.",
 )
